@@ -72,4 +72,11 @@ theorem simple_after_warmup (r : Gen.Caches.Row) (st : Caches.State) (c : Caches
   rw [Caches.step_warm spec warm c e he hk]
   exact ⟨rfl, rfl⟩
 
+/-- Gen obligation tying the extracted cache structure to the warm-up protocol: a convenience function whose table is
+    SHARED between threads (not thread-local) is keyed by the dimension alone (one slot per `m`, no further key), so after
+    one completed call per dimension no later call rebuilds a shared table; caches with further key parameters
+    (`divisor`, `log2bound`, …) are thread-local. -/
+theorem shared_caches_keyed_by_dimension_only :
+    Gen.Caches.rows.all (fun r => r.tls || (r.guard.isEmpty && r.slotByM)) = true := by decide +kernel
+
 end Spq.C12
